@@ -150,7 +150,8 @@ theorem addDeposit_both {s s' : State} {pid who amt : Nat} (hb : Both s) (h : ad
 
 theorem submit_both {s s' : State} {who : Addr} {msgs : List Msg} {initial : Nat} {exp : Bool} (hb : Both s)
     (h : submit s who msgs initial exp = .ok s') : Both s' := by
-  unfold submit at h
+  rw [submit_eq] at h
+  unfold submitSpec at h
   split at h
   · cases h
   · rename_i hcm
@@ -191,7 +192,8 @@ theorem cancel_both {s s' : State} {pid : Nat} {who : Addr} (hb : Both s) (h : c
 
 theorem vote_both {s s' : State} {pid : Nat} {voter : Addr} {opts : List (Opt × Nat)} (hb : Both s)
     (h : vote s pid voter opts = .ok s') : Both s' := by
-  unfold vote at h
+  rw [vote_eq] at h
+  unfold voteSpec at h
   split at h
   · cases h
   · rename_i hv
@@ -210,7 +212,8 @@ theorem dropInactive_both {s s' : State} {pid : Nat} (hb : Both s) (hi : Inv s) 
     (h : dropInactive pid s = .ok s') : Both s' := by
   obtain ⟨t, ht⟩ := hq
   obtain ⟨p0, hp0, hst0, _⟩ := hb.q.inactSound t pid ht
-  unfold dropInactive at h
+  rw [dropInactive_eq] at h
+  unfold dropInactiveSpec at h
   rw [hp0] at h
   simp only at h
   have b1 : Both { s with props := dropProp s.props pid, inactive := removeQ (p0.depositEnd, pid) s.inactive,
@@ -234,6 +237,7 @@ theorem finishTally_both {s s' : State} {pid : Nat} {p : Proposal} {passes burn 
     (h : finishTally passes burn res p pid s = .ok s') : Both s' := by
   have hpid : p.id = pid := findProp_id hp
   unfold finishTally at h
+  simp only [refundRun_eq, burnRun_eq] at h
   simp only [hsh, Bool.not_true, Bool.false_and, Bool.false_eq_true, if_false] at h
   simp only [hsh, if_true] at h
   -- the settlement keeps props, queues and votes
@@ -352,7 +356,8 @@ theorem dropInactive_tot {s : State} {id : Nat} (h1 : inactiveSettleShapeOk = tr
     (hq : ∃ t, (t, id) ∈ s.inactive) : ∃ s', dropInactive id s = .ok s' := by
   obtain ⟨t, ht⟩ := hq
   obtain ⟨p0, hp0, _, _⟩ := ha.both.q.inactSound t id ht
-  unfold dropInactive
+  rw [dropInactive_eq]
+  unfold dropInactiveSpec
   simp only [hp0, h1, if_true]
   split
   · exact refundDeposits_total (by simpa using ha.inv.bal)
@@ -368,7 +373,8 @@ theorem dropInactive_step {s s' : State} {id : Nat} (h1 : inactiveSettleShapeOk 
   intro id' hne ⟨t', ht'⟩
   refine ⟨t', ?_⟩
   have hia : s'.inactive = removeQ (p0.depositEnd, id) s.inactive := by
-    unfold dropInactive at hs'
+    rw [dropInactive_eq] at hs'
+    unfold dropInactiveSpec at hs'
     simp only [hp0, h1, if_true] at hs'
     split at hs'
     · exact (refundDeposits_spec (by simpa using ha.inv.bal) hs').2.2.2.1
@@ -380,6 +386,7 @@ theorem dropInactive_step {s s' : State} {id : Nat} (h1 : inactiveSettleShapeOk 
 theorem finishTally_tot {s : State} (h2 : settleShapeOk = true) (hb : s.gov = sumAmt s.deps) (passes burn : Bool)
     (res : Nat × Nat × Nat × Nat) (p : Proposal) (pid : Nat) : ∃ s', finishTally passes burn res p pid s = .ok s' := by
   unfold finishTally
+  simp only [refundRun_eq, burnRun_eq]
   simp only [h2, Bool.not_true, Bool.false_and, Bool.false_eq_true, if_false]
   simp only [h2, if_true]
   by_cases hk : (p.expedited && !passes) = true
@@ -436,6 +443,7 @@ theorem tallyOne_step {s s' : State} {stk : Staking} {id : Nat} (h2 : settleShap
       intro id' hne ⟨t', ht'⟩
       refine ⟨t', ?_⟩
       unfold finishTally at hs'
+      simp only [refundRun_eq, burnRun_eq] at hs'
       simp only [h2, Bool.not_true, Bool.false_and, Bool.false_eq_true, if_false] at hs'
       simp only [h2, if_true] at hs'
       have settle : ∀ s1 : State,
@@ -558,7 +566,7 @@ theorem step_all (h1 : inactiveSettleShapeOk = true) (h2 : settleShapeOk = true)
       · exact addDeposit_both ha.both h
     · exact ha.both
   | cancel pid who =>
-    simp only [step, Model.C15.ofExcept]
+    simp only [step, Model.C15.ofExcept, cancelRun_eq]
     split
     · rename_i s' h; exact cancel_both ha.both h
     · exact ha.both
